@@ -11,10 +11,10 @@ Line protocol for C07.  Sections of a payload are separated by `|`; the lines of
 * skeleton    : `<nodes> | soma=a,b hasconn=0|1 pre=… post=… | k=v;k=v` (attributes as `str(getattr(x,k))`)
 
 Commands
-* `c07.table <options> | <skeleton>`                → model only: `raises=…|rows=…|map=…|valid=…|cond=…|idtopo=…|topo=…|topovalid=…`
+* `c07.table <options> | <skeleton>`                → model only: `raises=…|rows=…|map=…|valid=…|cond=…|idtopo=…|histvalid=…|wf=…` (`hist…` = the former `sort_values("parent_id")` ordering)
 * `c07.file  <options> | <skeleton> | <impl node map old>new,…> | <file>` → the Lean parser on the real bytes + checkers
 * `c07.parse <options> | <file>`                    → `parse=…|ncols=…|valid=…|rows=…|props=…|soma=…|conns=…|nhdr=…`
-* `c07.sanitised <options> | <file>`                → rows after the intended NaN-row repair
+* `c07.sanitised <options> | <file>`                → rows after `sanitise_nodes` (same parser as `c07.parse`)
 * `c07.fmt <fmt> | <filename>`                      → `file:str=<name>;name:str=<…>;…` or `NOMATCH`
 -/
 namespace Navis.Drv.C07
@@ -115,6 +115,10 @@ def jsonPairs : Nat → List Char → Option (List (String × String))
             match jsonStr (r.length + 1) [] r with
             | none => none
             | some (v, r) => (jsonPairs f r).map fun l => (String.ofList k, String.ofList v) :: l
+          | '[' :: r =>
+            -- a JSON list (e.g. per-axis units): kept as its text, brackets included
+            let (v, rest) := r.span (fun c => c != ']')
+            (jsonPairs f (rest.drop 1)).map fun l => (String.ofList k, String.ofList ('[' :: v ++ [']'])) :: l
           | r =>
             let (v, rest) := r.span (fun c => c != ',' && c != '}')
             (jsonPairs f rest).map fun l => (String.ofList k, trim (String.ofList v)) :: l
@@ -237,7 +241,7 @@ def showMap (m : List (Int × Int)) : String := ",".intercalate (m.map fun p => 
 
 def showProps (kv : List (String × String)) : String := ";".intercalate (kv.map fun p => s!"{p.1}={p.2}")
 
-/-- The condition of `sortByParent_valid_iff`: every node that has a child has `parent_id < node_id`. -/
+/-- The condition of `historical_sortByParent_valid_iff`: every node that has a child has `parent_id < node_id`. -/
 def condB (t : List SNode) : Bool :=
   t.all fun p => !(t.any fun c => c.parent == p.id) || decide (p.parent < p.id)
 
@@ -248,6 +252,11 @@ def sortedByParentB : List SNode → Bool
   | [] => true
   | [_] => true
   | a :: b :: l => decide (a.parent ≤ b.parent) && sortedByParentB (b :: l)
+
+/-- depths are non-decreasing along the order (depths of the *table* `t`) -/
+def sortedByDepthB (t : List SNode) (o : List SNode) : Bool :=
+  let ds := o.map fun n => depth t n.id
+  (ds.zip ds.tail).all fun p => decide (p.1 ≤ p.2)
 
 /-- The order of the node table induced by the implementation's node map (`none` when the map is not a
 bijection of the node ids onto `1..N`). -/
@@ -292,9 +301,9 @@ def run (cmd rest : String) : Option String :=
       let o ← parseOpts o
       let sk ← parseSkel nodes extra attrs
       let tb := makeSwcTable o.op sk
-      let tp := makeSwcTableTopo o.op sk
+      let th := makeSwcTableHist o.op sk
       pure (s!"raises={b01 (writeRaises o.op sk)}|rows={showRows tb}|map={showMap (nodeMap sk)}|valid={b01 (swcValidB tb)}" ++
-        s!"|cond={b01 (condB sk.nodes)}|idtopo={b01 (idTopoB sk.nodes)}|topo={showRows tp}|topovalid={b01 (swcValidB tp)}" ++
+        s!"|cond={b01 (condB sk.nodes)}|idtopo={b01 (idTopoB sk.nodes)}|histvalid={b01 (swcValidB th)}" ++
         s!"|wf={b01 (wfB (forest sk.nodes))}")
     | _ => none
   | "file" => match splitN rest 5 with
@@ -309,8 +318,8 @@ def run (cmd rest : String) : Option String :=
       let hdrOK := (headerOf ls).map lineKind == hdrModel.map lineKind && metaOf ls == metaProps o.wm sk
       let agree := match orderFromMap sk.nodes m, parseSwc ls with
         | some ord, some f =>
-          s!"mapok=1|sorted={b01 (sortedByParentB ord)}|agree={b01 (f.rows == finish (labelOf o.op sk) ord)}" ++
-          s!"|mapagree={b01 (m.all fun p => newId ord p.1 == p.2)}|stable={b01 (ord == sortByParent sk.nodes)}" ++
+          s!"mapok=1|sorted={b01 (sortedByDepthB sk.nodes ord)}|parentsorted={b01 (sortedByParentB ord)}|agree={b01 (f.rows == finish (labelOf o.op sk) ord)}" ++
+          s!"|mapagree={b01 (m.all fun p => newId ord p.1 == p.2)}|stable={b01 (ord == sortByDepth sk.nodes)}" ++
           s!"|rt={b01 (some f.rows == (parseSwc (writeWith o.wm o.op sk ord)).map (·.rows))}"
         | none, _ => "mapok=0"
         | _, none => "mapok=1|agree=0"
@@ -324,7 +333,7 @@ def run (cmd rest : String) : Option String :=
   | "sanitised" => match splitN rest 1 with
     | [o, file] => do
       let o ← parseOpts o
-      match parseSwcSanitised (lexFile o.delim file) with
+      match parseSwc (lexFile o.delim file) with
       | some f => pure s!"ok=1|rows={showRows f.rows}"
       | none => pure "ok=0"
     | _ => none
